@@ -4,9 +4,10 @@ import glob, importlib, json, os, sys
 ROOT = os.path.dirname(os.path.dirname(os.path.abspath(__file__)))
 sys.path.insert(0, os.path.join(ROOT, "bin"))
 checks = []
+ENABLED = set(json.load(open(os.path.join(ROOT, "bin", "enabled.json"))))
 for f in sorted(glob.glob(os.path.join(ROOT, "bin", "props", "C*.py"))):
     P = importlib.import_module("props." + os.path.basename(f)[:-3])
-    if getattr(P, "DISABLED", False):
+    if getattr(P, "DISABLED", False) or P.ID not in ENABLED:
         continue
     checks.append({
         "property_id": P.ID,
